@@ -3,6 +3,7 @@ import BigtreeProofs.Lemmas.ModifyFold
 import BigtreeProofs.Lemmas.ModifyEdit
 import BigtreeProofs.Lemmas.ModifyMerge
 import BigtreeProofs.Lemmas.ModifyReplace
+import BigtreeProofs.Lemmas.ModifyLeaves
 /-!
 # C08 — shift / copy / replace perform exactly the documented edit and nothing else
 
@@ -880,6 +881,75 @@ example : replaceNodes (cfgOf false false false false false false true) (st0 exR
       [(pathStr '/' ['a'] [['x']], some (pathStr '/' ['a'] [['y']]))]
     = .ok (st0 (.node 0 ['a'] [] [.node 2 ['D'] [] [.node 3 ['q'] [] []], .node 1 ['x'] [] [],
         .node 6 ['F'] [] [], .node 7 ['z'] [] []]) 8) := by
+  decide +kernel
+
+
+/-! ## merge_leaves onto an existing destination -/
+
+/-- `merge_leaves=True`, `overriding=False`, the destination `D` exists, the from-node `F` is not
+itself a leaf; neither node lies inside the other; the leaves of `F` have distinct names, none of
+them the name of a child of `D` (otherwise `Node` refuses the duplicate path) -/
+structure LeavesHyp (cfg : Cfg) (c : Char) (t : Tree) (fpar tpar : List Str) (l : Str)
+    (F D : Tree) : Prop where
+  plain : cfg.Plain c
+  mc : cfg.mergeChildren = false
+  ml : cfg.mergeLeaves = true
+  ov : cfg.overriding = false
+  su : SibUnique t
+  gf : GoodNames c (t.name :: fpar ++ [l])
+  gt : GoodNames c (t.name :: tpar ++ [l])
+  found : getRel (fpar ++ [l]) t = some F
+  dest : getRel (tpar ++ [l]) t = some D
+  out1 : (fpar ++ [l]).isPrefixOf (tpar ++ [l]) = false
+  out2 : (tpar ++ [l]).isPrefixOf (fpar ++ [l]) = false
+  inner : F.children ≠ []
+  distinct : ((leavesRel F).map (fun pr => pr.2.name)).Nodup
+  noclash : ∀ pr ∈ leavesRel F, ∀ y ∈ D.children, y.name ≠ pr.2.name
+
+/-- `merge_leaves`: every leaf of the from-node (same object, same attributes) appears as a
+child of the destination; the rest of the tree — the from-node with its inner nodes, the
+destination's own children — is the old tree without those leaves, in the old order; nothing is
+created. -/
+theorem merge_leaves_paths {cfg c t k fpar tpar l F D} (h : LeavesHyp cfg c t fpar tpar l F D)
+    (hcp : cfg.copy = false) :
+    ∃ t', call1 cfg c t k (fpar ++ [l]) (tpar ++ [l]) = .ok (st0 t' k) ∧ SibUnique t' ∧
+      (∀ pr ∈ leavesRel F, (flat t').filter (under (tpar ++ [l] ++ [pr.2.name]))
+          = [(tpar ++ [l] ++ [pr.2.name], pr.2.id, pr.2.attrs)]) ∧
+      (flat t').filter (fun e => !underAny (tpar ++ [l]) ((leavesRel F).map (·.2)) e)
+        = (flat t).filter
+            (fun e => !(((leavesRel F).map (fun pr => fpar ++ [l] ++ pr.1)).any (fun p => under p e))) :=
+  merge_leaves_core h.plain hcp h.mc h.ml h.ov t k fpar tpar l F D h.su h.gf h.gt h.found h.dest
+    h.out1 h.out2 h.inner h.distinct h.noclash
+
+/-- `r(m(a(x, y), z), q(m(u)))`: leaves `x, y, z` of `/r/m` go under `/r/q/m` -/
+def exLeaves : Tree :=
+  .node 0 ['r'] [] [
+    .node 1 ['m'] [] [.node 2 ['a'] [] [.node 3 ['x'] [] [], .node 4 ['y'] [] []], .node 5 ['z'] [] []],
+    .node 6 ['q'] [] [.node 7 ['m'] [] [.node 8 ['u'] [] []]]]
+
+example : LeavesHyp (cfgOf false false false false true false true) '/' exLeaves [] [['q']] ['m']
+    (.node 1 ['m'] [] [.node 2 ['a'] [] [.node 3 ['x'] [] [], .node 4 ['y'] [] []], .node 5 ['z'] [] []])
+    (.node 7 ['m'] [] [.node 8 ['u'] [] []]) where
+  plain := ⟨rfl, rfl, rfl, rfl⟩
+  mc := rfl
+  ml := rfl
+  ov := rfl
+  su := by decide +kernel
+  gf := by decide +kernel
+  gt := by decide +kernel
+  found := by decide +kernel
+  dest := by decide +kernel
+  out1 := by decide +kernel
+  out2 := by decide +kernel
+  inner := by decide +kernel
+  distinct := by decide +kernel
+  noclash := by decide +kernel
+
+example : call1 (cfgOf false false false false true false true) '/' exLeaves 9 [['m']] [['q'], ['m']]
+    = .ok (st0 (.node 0 ['r'] [] [
+      .node 1 ['m'] [] [.node 2 ['a'] [] []],
+      .node 6 ['q'] [] [.node 7 ['m'] [] [.node 8 ['u'] [] [], .node 3 ['x'] [] [], .node 4 ['y'] [] [],
+        .node 5 ['z'] [] []]]]) 9) := by
   decide +kernel
 
 end C08
